@@ -22,7 +22,9 @@ TRUSTED_BASE = [
     'Lean 4.33.0 kernel; axioms admitted: propext, Classical.choice, Quot.sound (audited per theorem on every run)',
     'hand-written model lean/ChibiVerif/Model/PP.lean of preprocess.c (hide sets, read_macro_args, subst, expand_macro, preprocess2); '
     'tied on every run by differential execution against the real `chibicc -E` (token spellings, at_bol line structure, has_space, '
-    'diagnostic kind) on generated definition sets x invocations; hide sets themselves are not observable, only their effect on the output',
+    'diagnostic kind) and against the real preprocess2() run in-process (tools/harness/pp_harness.c #includes the snapshot\'s '
+    'preprocess.c; ASan/UBSan): the hide set of every output token, names in list order, equals the model\'s on generated definition '
+    'sets x invocations (hide sets of intermediate tokens are observed only through what they leave on the output tokens)',
     'translator tools/extract/pp.py (punctuator list, init_macros tables, __COUNTER__ start; pins the shape of subst/expand_macro/is_hash/'
     'hideset_*/join_tokens/paste/read_macro_arg_one/quote_string and fails loudly when they change)',
     'the specification lean/ChibiVerif/Spec/PPSpec.lean (my reading of C11 6.10.3-6.10.3.4, C2x __VA_OPT__, GNU `, ##`), validated against '
@@ -1135,24 +1137,33 @@ MANIFEST = {
                   'read_macro_args accepts is the arguments joined by commas, the variable argument taking the rest (C09_args); expand_macro '
                   'declines a token only if it is painted, names no macro, or is a function-like name not followed by `(` (C09_blue_step); every '
                   'token of an expansion carries the macro name in its hide set (C09_blue_paint); in the output of preprocess2 every identifier '
-                  'naming a macro is painted or function-like (C09_blue); for object-like definition sets preprocess2 finishes within the explicit '
-                  'fuel bound `bound defs input` (C09_terminates_partial, multiset-style measure on hide sets); __COUNTER__ yields c, c+1, ... '
-                  '(C09_counter); and subst produces exactly the spellings of the phase-structured C11 6.10.3.1-3 specification (with '
-                  'placemarkers) whenever that specification defines them, outside the two known-finding regions and without GNU/C2x extensions '
-                  '(C09_subst_spec_partial).  The full substitution statement is refuted by kernel-checked witnesses (Findings/C09.lean: t(,,) '
+                  'naming a macro is painted or function-like (C09_blue); for EVERY macro table (object-like, function-like, variadic, built-in, '
+                  'any hide sets on the tokens, any lexer behind ##) preprocess2 on text without directive lines finishes within the explicit '
+                  'fuel bound `fuelBound defs input` = fuelE (longest replacement list) (number of entries) (input length) 0, and its output '
+                  'has at most that many tokens (C09_terminates, C09_terminates_output, C09_terminates_bound_exists: lexicographic measure over '
+                  'ghost levels of the pending list; the hide-set intersection of expand_macro never loses a name of the level its `)` comes '
+                  'from; arguments handed to the nested preprocess2 inherit a smaller measure); for object-like definition sets the sharper '
+                  'singly-exponential bound `bound defs input` (C09_terminates_partial); __COUNTER__ yields c, c+1, ... (C09_counter); '
+                  'subst produces exactly the spellings of the phase-structured C11 6.10.3.1-3 specification (with placemarkers) whenever '
+                  'that specification defines them, outside the two known-finding regions and without GNU/C2x extensions '
+                  '(C09_subst_spec_partial); and the stringized text of `#` is the standard\'s if and only if no token of the argument has a '
+                  '`\\` or `"` outside a literal (C09_stringize_exact: the region of the second known finding is exact at the `#` operator).  '
+                  'The full substitution statement is refuted by kernel-checked witnesses (Findings/C09.lean: t(,,) '
                   'and str(: @\\n)).  On every run the model is tied to the real chibicc -E (spellings, line structure, spacing, diagnostic '
-                  'kind) and chibicc is compared with gcc -E -P and the Lean specification on ~3,300 (quick) generated inputs.',
+                  'kind) and to the real preprocess2 run in-process (hide set of every output token), and chibicc is compared with gcc -E -P '
+                  'and the Lean specification, on ~4,000 (quick) generated inputs.',
     'level_note': 'Partial: C09_subst_spec only outside NoPlacemarkerChain / StringizeLiteralSafe (known findings) and without `, ## '
                   '__VA_ARGS__`, `__VA_OPT__(`, `## ##`, `## #`, and only in the direction "specification defines it => subst produces it"; '
-                  'C09_terminates only for tables without function-like macros (C09_terminates_Statement is open: hide-set intersection across '
-                  'expansion boundaries and recursive argument pre-expansion); C09_blue on text without directives.  Trusted: Lean kernel '
-                  '(axioms audited each run), the hand model (tied by differential testing; hide sets are observable only through their effect '
-                  'on the output), tools/extract/pp.py (pins the shape of subst/expand_macro/paste/... and regenerates punctuator and '
+                  'C09_terminates and C09_blue on text without directive lines (the table is fixed while the text is scanned; `fuelBound` is a '
+                  'tower in the number of table entries, far from tight).  Trusted: Lean kernel '
+                  '(axioms audited each run), the hand model (tied by differential testing of chibicc -E and of the in-process '
+                  'preprocess2 with the hide sets of the output tokens), tools/extract/pp.py (pins the shape of subst/expand_macro/paste/... and regenerates punctuator and '
                   'init_macros tables), the python tokenizer, Spec/PPSpec.lean (validated against gcc 12 on every input of every run). '
                   '#include/#if are C10; where C11 6.10.3.4p4 leaves nesting unspecified and for GNU `, ##` chibicc and gcc are not compared.',
     'technique': 'Lean 4: structural induction over replacement lists with a simulation invariant between the one-pass C algorithm and the '
-                 'phase-structured specification, invariant transfer through subst, a hide-set rank measure for termination; '
-                 'translator-pinned source shapes; differential correspondence with chibicc -E; gcc -E -P and an executable C11 6.10.3 '
-                 'specification as two independent oracles (a mismatch is a violation only when both agree against chibicc)',
+                 'phase-structured specification, invariant transfer through subst, a lexicographic level measure (hide-set rank measure '
+                 'for the sharper object-like bound) turned into an explicit fuel function for termination; '
+                 'translator-pinned source shapes; differential correspondence with chibicc -E and with preprocess2 in-process '
+                 '(hide sets); gcc -E -P and an executable C11 6.10.3 specification as two independent oracles (a mismatch is a violation only when both agree against chibicc)',
     'design_ref': 'DESIGN.md section 6, C09',
 }
